@@ -126,7 +126,7 @@ fn natural_script(rng: &mut Rng, msg: &[u8], with_rdata: bool) -> String {
 }
 
 /// `rr`/`pkp` need the RDATA model in the driver (C18); enabled once it is merged.
-pub const WITH_RDATA: bool = false;
+pub const WITH_RDATA: bool = true;
 
 pub fn gen(rng: &mut Rng, thorough: bool, em: &mut Emitter) {
     let n = if thorough { 150_000 } else { 12_000 };
